@@ -74,7 +74,7 @@ Theorem C11_deleted_parent_untouched :
 Proof. exact deleted_parent_untouched. Qed.
 Print Assumptions C11_deleted_parent_untouched.
 
-(* 4. missing child history (not found, or found but empty — repaired by /repo 43ff9c3): every run
+(* 4. missing child history (not found, or found but empty — repaired by /repo a5cf8e2): every run
       fails unless IgnoreMissingChildren ... *)
 Theorem C11_missing_history_error :
   forall cis o ps hist entries sortf p par j r,
